@@ -11,6 +11,7 @@ def main(tier):
     kernels.acos_clamp(P, rep)
     kernels.kd_structure(P, rep)
     kernels.conversion_roundtrip(P, rep)
+    kernels.point_kernels(P, rep)
     rep.assumptions.append("nearest-ness of the kd search result, polygon exactness, Newton convergence are NOT decided (numeric); the conversion round trip is decided "
                            "as an algebraic identity only (no rounding)")
     rep.explanation = ("Computer-algebra identity between the closest-point search's cubic coefficients and the Bernstein form evaluated by "
